@@ -42,3 +42,23 @@ Theorem C02_nonvacuous :
   accepts (code_F t0) (code_Q t0) [(0, [("v", CTree (RPath [0]))], [], ORaise)] false [c] [] = false.
 Proof. exact c02_nonvacuous. Qed.
 Print Assumptions C02_nonvacuous.
+
+(* ---- RepetitionBoundsConstraint.fitness (modelled in Model/RepBoundsM.v, tied by correspondence) ---- *)
+From FV Require Import Model.RepBoundsM Proofs.C02RepBounds.
+
+(* a count field is out of bounds for a repetition exactly when it lies after the repetition's anchor in document order *)
+Theorem C02_in_bounds_is_document_order : forall m p, in_bounds m p = false <-> first_diff_lt m p.
+Proof. exact in_bounds_spec. Qed.
+Print Assumptions C02_in_bounds_is_document_order.
+
+(* the bound is read from the last match in bounds *)
+Theorem C02_bound_from_nearest_preceding_field : forall cands m v, bound_value (BSearch cands) m = Some v ->
+  exists pre p post, cands = pre ++ (p, v) :: post /\ in_bounds m p = true /\ Forall (fun c => in_bounds m (fst c) = false) post.
+Proof. exact bound_value_last. Qed.
+Print Assumptions C02_bound_from_nearest_preceding_field.
+
+(* solved = total exactly when every repetition instance is within its bounds *)
+Theorem C02_repetition_bounds_success : forall bmin bmax g n, count_ok bmin bmax g = Some n ->
+  (n = List.length g <-> Forall (fun e => group_ok bmin bmax (snd e) = Some true) g) /\ n <= List.length g.
+Proof. exact count_ok_all. Qed.
+Print Assumptions C02_repetition_bounds_success.
